@@ -92,6 +92,20 @@ def main(c):
         else:
             s = rnd.choice("0123456789abcdefABCDEFgG \x01") * rnd.randint(0, 9) + rnd.choice(["", "0", "zz"])
             codec.append("hexd %s %d" % (hx(s), rnd.randint(0, 6)))
+    # key files and passphrase files of (nearly) the documented shape: both orders, CR LF, no final EOL, values and lines around the
+    # 1023-byte piece and the 2047-byte limit, duplicates, unknown names, '=' in values (KeyFile.tla decides the result)
+    for _ in range(c.pick(400, 8000)):
+        idv = "".join(rnd.choice("AKIA0123456789=:/ ") for _ in range(rnd.choice([0, 1, 20, 20, 1000, 1004, 1005, 1006, 1010, 1030])))
+        sev = "".join(rnd.choice("abcXYZ0189+/= ") for _ in range(rnd.choice([0, 1, 40, 40, 996, 1000, 1001, 1002, 1004, 1100])))
+        ls = rnd.choice([["ACCESS_KEY_ID=" + idv, "ACCESS_KEY_SECRET=" + sev], ["ACCESS_KEY_SECRET=" + sev, "ACCESS_KEY_ID=" + idv],
+                         ["ACCESS_KEY_ID=" + idv, "ACCESS_KEY_SECRET=" + sev, "ACCESS_KEY_ID=" + idv], ["ACCESS_KEY_ID=" + idv], ["ACCESS_KEY_SECRET=" + sev],
+                         ["ACCESS_KEY_ID=" + idv, "", "ACCESS_KEY_SECRET=" + sev], ["ACCESS_KEY_ID=" + idv, "ACCESS_KEY_SECRET=" + sev, "OTHER=1"],
+                         ["access_key_id=" + idv, "ACCESS_KEY_SECRET=" + sev], ["ACCESS_KEY_ID" + idv, "ACCESS_KEY_SECRET=" + sev],
+                         ["ACCESS_KEY_ID=" + idv, "ACCESS_KEY_SECRET=" + sev + "\r" + "tail"]])
+        eol = rnd.choice(["\n", "\n", "\r\n", "\r"])
+        codec.append("kf " + hx(eol.join(ls) + rnd.choice([eol, eol, "", "junk"])))
+        pw = "".join(rnd.choice("pass word\t!") for _ in range(rnd.choice([0, 1, 10, 30, 2045, 2046, 2047, 2048, 2049, 3000])))
+        codec.append("pf " + hx(pw + rnd.choice(["", "\n", "\r\n", "\n\n", "\nx", "\n\r\n"])))
     c.cov["calls"] = len(codec) + len(nums)
     per = 2500
     for name, lines, mod in (("codec", codec, "CodecTrace"), ("nums", nums, "ParsenumTrace")):
